@@ -11,8 +11,12 @@
      If x is an integer it is returned exactly.  Otherwise x = n + r/q3 with 1 ≤ r < q3, i.e. x is at least
      1/q3 below n+1 and at least 1/q3 above n; both n and n+1 are doubles and rounding is monotone, so the
      rounded quotient lies in [n, n+1] and can be n+1 only if n+1-x ≤ half an ulp = 2^-47 (binade of 64..128).
-     1/q3 > 2^-47 for every bucket count q3 < 2^47, hence int() of the double is n = ⌊x⌋.  The correspondence
-     stream compares these two header nibbles with the real code on every hashed input.
+     1/q3 > 2^-47 for every bucket count q3 < 2^47, hence int() of the double is n = ⌊x⌋.  (This is an
+     argument about THIS order of operations: `q/q3*100` rounds twice and is one too small e.g. for 29/50.)  The
+     correspondence stream compares the two header nibbles with the real code on every hashed input AND — hashed data
+     rarely produces the critical quartile pairs — on explicit object state (`finalOf`, ops tlsh.final / tlsh.qscan:
+     all pairs q ≤ q3 ≤ 200, thorough ≤ 1000 and all triples ≤ 160, sampled counts up to 2^46); tlsh.qexact
+     enumerates the source expression itself over all float pairs q ≤ q3 < 1024 (thorough 4096).
   `q3 = 0` (a ZeroDivisionError in Python) is an explicit error branch; `Proofs.C19.tlsh_never_errors` shows
   it is unreachable behind the population gate.
 -/
@@ -144,6 +148,22 @@ def final (lcap : Nat → Nat) (c : Cfg) (data : List Nat) (force : Bool) : Exce
   let st := update c data
   let (q1, q2, q3) := quartiles c st.bucket
   if tooFew c.buckets (nonzero c st.bucket) then .ok none else
+  if q3 = 0 then .error "ZeroDivisionError" else
+  .ok (some { chklen := c.chklen, checksum := st.checksum, lvalue := lcap len % 256,
+              q1 := q1 * 100 / q3 % 16, q2 := q2 * 100 / q3 % 16,
+              code := bodyCode c q1 q2 q3 st.bucket })
+
+/-- `final(b'',force)` on an object whose state was set directly (`a_bucket := bucket`, `checksum := ck`,
+    `data_len := len`, everything else as `reset()` left it): the finalisation phase alone, for ANY bucket array.
+    `find_quartiles` indexes `sorted(a_bucket[:bktlen])[3*codesize-1]` and the code loop indexes `a_bucket[bi]` for
+    `bi < bktlen`: both are IndexErrors on arrays that are too short (never the case after `update`, which always
+    leaves 256 buckets: `Proofs.C19.final_is_finalOf`). -/
+def finalOf (lcap : Nat → Nat) (c : Cfg) (st : St) (len : Nat) (force : Bool) : Except Err (Option TObj) :=
+  if len < minLen ∨ (force = false ∧ len < minLenNoForce) then .ok none else
+  if (st.bucket.take c.buckets).length ≤ 3 * c.codesize - 1 then .error "IndexError" else
+  let (q1, q2, q3) := quartiles c st.bucket
+  if tooFew c.buckets (nonzero c st.bucket) then .ok none else
+  if st.bucket.length < c.buckets then .error "IndexError" else
   if q3 = 0 then .error "ZeroDivisionError" else
   .ok (some { chklen := c.chklen, checksum := st.checksum, lvalue := lcap len % 256,
               q1 := q1 * 100 / q3 % 16, q2 := q2 * 100 / q3 % 16,
